@@ -372,7 +372,7 @@ pub fn gen_world(r: &mut Rng) -> Vec<Tree> {
                 (r.range(1, 4), r.below(12000), r.below(256))
             }
         };
-        let w: [u32; 27] = [14, 16, 14, 3, 3, 6, 9, 9, 5, 2, 2, 2, 3, 3, 3, 2, 10, 2, 2, 3, 4, 3, 4, 3, 2, 3, 4];
+        let w: [u32; 28] = [14, 16, 14, 3, 3, 6, 9, 9, 5, 2, 2, 2, 3, 3, 3, 2, 10, 2, 2, 3, 4, 3, 4, 3, 2, 3, 4, 3];
         match r.weighted(&w) {
             0 => {
                 // time passes for everybody (mostly), or for one endpoint only
@@ -522,6 +522,19 @@ pub fn gen_world(r: &mut Rng) -> Vec<Tree> {
                 ops.push(l(vec![n(155u8), n(k), n(k), n(r.range(0, 300))]));
             }
             23 => ops.push(l(vec![n(158u8), n(k), n(r.range(0, 300)), b(&r.bytes(300))])),
+            26 => {
+                // a token sealed for a protocol id that differs from the server's in one bit (another version of the
+                // game, the same key), whose request is then presented with that bit of the public field set right
+                let bit = *r.pick(&[0u64, 7, 8, 31, 55, 56, 57, 60, 63]);
+                unsecure_tokens += 1;
+                let tk = 200_000 + unsecure_tokens;
+                let tkey: Vec<u8> = if secure { key.clone() } else { zero_key.clone() };
+                ops.push(l(vec![n(101u8), n(tk), n(now), n(protocol ^ (1 << bit)), n(30u8), n(id), z_tree(15), l(vec![addr_tree(&server_addr)]), b(&r.bytes(256)), b(&tkey)]));
+                ops.push(l(vec![n(102u8), n(k), n(now), n(tk)]));
+                ops.push(l(vec![n(103u8), n(k), n(250 * MS)]));
+                ops.push(l(vec![n(150u8), n(k), n(0u8), n(1u8), n(14 * 8 + bit), n(0u8)]));
+                ops.push(l(vec![n(116u8)]));
+            }
             25 => {
                 // type confusion: genuine datagrams of a live session arrive with another packet type in the clear prefix
                 // (keep-alive relabelled as payload, payload relabelled as keep-alive), then the genuine payload itself
